@@ -35,7 +35,7 @@ Theorem C04_exchange_sound : forall (H : string -> string) (cf : cfg) ops h s,
     /\ uri = q_uri q
     /\ (forall ch, q_chal q = Some ch -> ver <> "" /\ (if fst ch then H ver else ver) = snd ch)
     /\ (client_public cf (q_client q) = true -> q_chal q <> None)
-    /\ t_at_sub t = q_sub q /\ (In "openid" (q_scopes q) -> t_sub t = q_sub q)
+    /\ t_at_sub t = q_sub q /\ t_sub t = q_sub q
     /\ t_azp t = q_client q /\ In (q_client q) (t_aud t)
     /\ (forall x, t_jwt t = Some x -> x = q_client q)
     /\ t_scope t = q_scopes q /\ t_nonce t = q_nonce q.
